@@ -34,6 +34,10 @@ CONSTANTS P,        \* field prime (small)
 VARIABLES wit, cons, objs, gstack, uign, raised, hist
 vars == <<wit, cons, objs, gstack, uign, raised, hist>>
 
+\* value sets for the cfg files (the cfg grammar has no negative literals): CONSTANT Vals <- ValsThorough
+ValsQuick == {0, 1, 3}
+ValsThorough == {-1, 0, 1, 3}
+
 Wires == 0..MaxW
 Zero  == [w \in Wires |-> 0]
 One   == [Zero EXCEPT ![0] = 1]
